@@ -433,7 +433,9 @@ def main():
             f.write("# property %s violated on the implementation: class=%s %s\n" % (p.id, cls, detail))
             f.write("# replay: python3 tools/check.py %s --replay %s\n" % (p.id, replay_path))
             if disagreements:
-                f.write("# (model and implementation also disagree on %d cases)\n" % len(disagreements))
+                f.write("# (model and implementation also disagree on %d cases; first ones below, commented out)\n" % len(disagreements))
+                for j, name, x, y in disagreements[:8]:
+                    f.write("#  disagreement case %d [%s]\n#   impl : %s\n#   model: %s\n#   %s\n" % (j, name, x[:400], y[:400], cases[j][:4000]))
             for kind, d in broken:
                 f.write("# also broken: %s: %s\n" % (kind, d.split("\n")[0]))
             f.write(cases[i] + "\n")
